@@ -509,7 +509,10 @@ def main(modname: str, argv: list[str]) -> int:
         if hasattr(mod, "worker_init"):
             mod.worker_init()
         try:
-            for ci, (cls, (k, rec)) in enumerate(sorted(classes.items(), key=lambda kv: (kv[1][0][0], kv[1][0][1]))):
+            ordered = sorted(classes.items(), key=lambda kv: (kv[1][0][0], kv[1][0][1]))
+            if len(ordered) > 6:
+                print(f"  {len(ordered)} distinct violation classes; replay files are written for the first 6", flush=True)
+            for ci, (cls, (k, rec)) in enumerate(ordered[:6]):
                 fam, i = k
                 rng = random.Random(sub_seed(seed, prop, fam, i))
                 plan = mod.gen_plan(fam, i, rng, args.tier)
